@@ -34,7 +34,10 @@ fn int_text(rng: &mut Rng, ty: IntTy) -> Vec<u8> {
         s.push(b'-'); // includes "-0"
     }
     if rng.chance(1, 12) {
-        for _ in 0..rng.range(1, 3) {
+        // mostly one to three leading zeros; now and then more zeros than the type has digits
+        // (a parser that counts digits or reads a fixed-width block must not mind)
+        let zeros = if rng.chance(1, 10) { rng.range(4, 45) } else { rng.range(1, 3) };
+        for _ in 0..zeros {
             s.push(b'0');
         }
     }
@@ -48,6 +51,14 @@ fn str_text(rng: &mut Rng) -> Vec<u8> {
     let n = match rng.below(6) {
         0 => 1,
         1 => 2,
+        2 => match rng.below(8) {
+            // block-wise scanners (8 / 16 / 32 / 64 bytes at a time) need tokens around and
+            // beyond their block sizes
+            0 => rng.urange(13, 80),
+            1 => *rng.pick(&[7usize, 8, 9, 15, 16, 17, 31, 32, 33, 63, 64, 65, 127, 128, 129]),
+            2 if rng.chance(1, 4) => rng.urange(130, 600),
+            _ => rng.urange(1, 12),
+        },
         _ => rng.urange(1, 12),
     };
     (0..n).map(|_| *rng.pick(STR_BYTES)).collect()
